@@ -262,7 +262,13 @@ class Entity(Block):
 
                 info.non_dynamic_ports = set(info.ports)
                 info.instantiated = template_instance
-                info.architecture(template_instance)
+
+                try:
+                    info.architecture(template_instance)
+                except BaseException:
+                    # a partially elaborated instance must not be reused
+                    info.instantiated = None
+                    raise
 
                 for handler in template_instance._cohdl_block_info._exit_handlers[::-1]:
                     handler()
